@@ -264,8 +264,96 @@ func c03CheckX(x *ast.Program, want string, cfg Cfg) (kind, detail string) {
 	return "", ""
 }
 
+// c03Branches: brace-less bodies. Every body position of if / if-else / while / for (also nested in one
+// another) holds a simple statement whose text ends in each class of final byte (name, number, quote,
+// backtick, ')', ']', the '}' of an object literal, the '}' of a function expression, '++'), followed by
+// nothing, by an else branch, or by a statement that starts with a continuation character.
+func c03Branches(c *core.Ctx) {
+	ends := []func() *gen.Node{
+		func() *gen.Node { return gen.I("v") },
+		func() *gen.Node { return gen.N("1") },
+		func() *gen.Node { return gen.S("'s'") },
+		func() *gen.Node { return gen.T_("`t`") },
+		func() *gen.Node { return gen.Ca(gen.I("f")) },
+		func() *gen.Node { return gen.Ar(gen.I("e")) },
+		func() *gen.Node { return gen.Ob(gen.I("k"), gen.N("1")) },
+		func() *gen.Node { return gen.Ob() },
+		func() *gen.Node { return gen.F("", nil, gen.Ret(gen.N("2"))) },
+		func() *gen.Node { return gen.F("", nil) },
+		func() *gen.Node { return gen.Po("++", gen.I("n")) },
+		func() *gen.Node { return gen.Bi("+", gen.I("a"), gen.Ob(gen.I("k"), gen.N("1"))) },
+	}
+	stmts := []func(e *gen.Node) *gen.Node{
+		func(e *gen.Node) *gen.Node { return gen.Ret(e) },
+		func(e *gen.Node) *gen.Node { return gen.Ex(gen.As("=", gen.I("x"), e)) },
+		func(e *gen.Node) *gen.Node { return gen.Ex(gen.As("+=", gen.Do(gen.I("o"), "p"), e)) },
+		func(e *gen.Node) *gen.Node { return gen.Ex(gen.Ca(gen.I("g"), e)) },
+		func(e *gen.Node) *gen.Node { return gen.Ex(gen.Bi("+", gen.I("a"), e)) },
+	}
+	cond := func() *gen.Node { return gen.I("c") }
+	other := func() *gen.Node { return gen.Ex(gen.As("=", gen.I("y"), gen.Ob(gen.I("q"), gen.N("0")))) }
+	bodies := []struct {
+		name string
+		mk   func(s *gen.Node) []*gen.Node
+	}{
+		{"if", func(s *gen.Node) []*gen.Node { return []*gen.Node{gen.If(cond(), s, nil)} }},
+		{"if-else-then", func(s *gen.Node) []*gen.Node { return []*gen.Node{gen.If(cond(), s, other())} }},
+		{"if-else-else", func(s *gen.Node) []*gen.Node { return []*gen.Node{gen.If(cond(), other(), s)} }},
+		{"if-else-both", func(s *gen.Node) []*gen.Node { return []*gen.Node{gen.If(cond(), s, gen.Clone(s))} }},
+		{"else-if-chain", func(s *gen.Node) []*gen.Node {
+			return []*gen.Node{gen.If(cond(), s, gen.If(gen.I("d"), gen.Clone(s), gen.Clone(s)))}
+		}},
+		{"while", func(s *gen.Node) []*gen.Node { return []*gen.Node{gen.While(cond(), s)} }},
+		{"for", func(s *gen.Node) []*gen.Node { return []*gen.Node{gen.For(nil, cond(), nil, s)} }},
+		{"if-while-else", func(s *gen.Node) []*gen.Node { return []*gen.Node{gen.If(cond(), gen.While(gen.I("d"), s), other())} }},
+		{"if-for-else", func(s *gen.Node) []*gen.Node {
+			return []*gen.Node{gen.If(cond(), gen.For(nil, gen.I("d"), nil, s), other())}
+		}},
+		{"while-if-else", func(s *gen.Node) []*gen.Node { return []*gen.Node{gen.While(cond(), gen.If(gen.I("d"), s, other()))} }},
+		{"if-block-else", func(s *gen.Node) []*gen.Node { return []*gen.Node{gen.If(cond(), gen.Block(s), gen.Clone(s))} }},
+	}
+	nexts := []func() *gen.Node{
+		nil,
+		func() *gen.Node { return gen.Ex(gen.Ca(gen.G(gen.I("b")))) },
+		func() *gen.Node { return gen.Ex(gen.Ca(gen.Do(gen.Ar(gen.I("b")), "m"))) },
+		func() *gen.Node { return gen.Ex(gen.I("z")) },
+	}
+	for ei, e := range ends {
+		for si, st := range stmts {
+			for bi, body := range bodies {
+				if !c.Next() || c.Tick() {
+					continue
+				}
+				for ni, nx := range nexts {
+					for wrap := 0; wrap < 2; wrap++ {
+						prog := body.mk(st(e()))
+						if nx != nil {
+							prog = append(prog, nx())
+						}
+						if wrap == 1 || si == 0 {
+							prog = []*gen.Node{gen.Func("w", nil, prog...)}
+						}
+						name := fmt.Sprintf("branches:%s:end%d:stmt%d:next%d:wrap%d", body.name, ei, si, ni, wrap)
+						c.Cur(name)
+						for ci, cfg := range c03Cfgs {
+							c.Inc("print_parse_roundtrips")
+							c.Inc("braceless_body_roundtrips")
+							k, d, _ := c03Check(prog, cfg)
+							if k != "" && c.ShrinkOK("br"+k+body.name) {
+								pl, _ := json.Marshal(c03Payload{Deep: []int{-3, ei, si, bi, ni, wrap, ci}})
+								c.Violate(core.Violation{Kind: k, Config: cfg.String(), Case: name + " " + gen.ShapeProgram(prog), Detail: core.Short(d, 500), Payload: pl, Size: 15})
+							}
+						}
+					}
+				}
+			}
+		}
+	}
+}
+
 func c03Run(c *core.Ctx) {
 	c03Trivia(c)
+	c03Branches(c)
 	c03MultiLine(c)
 	c03Edited(c)
 	c03Deep(c)
@@ -418,6 +506,10 @@ func c03Replay(pl json.RawMessage) (string, []core.Violation) {
 	var vs []core.Violation
 	if len(p.Deep) > 0 {
 		cx := core.NewCtx("C03", "thorough", 0, 0, 1, time.Now().Add(10*time.Minute))
+		if p.Deep[0] == -3 {
+			c03Branches(cx)
+			return "brace-less body family re-run", cx.Violations()
+		}
 		if p.Deep[0] == -2 {
 			c03Trivia(cx)
 			return "trivia family re-run", cx.Violations()
@@ -451,7 +543,7 @@ func c03Replay(pl json.RawMessage) (string, []core.Violation) {
 func init() {
 	core.Register(&core.PropSpec{
 		ID: "C03", Level: "exploration",
-		Rule:     "every chain of 0..3 nested (constructor, operand position) contexts — 4 prefix, 2 postfix, 13 binary x 2 sides, 3 assignment x 2 sides, callee, arguments, member object, index, array/object elements, function body, explicit group — around each of 9 leaf kinds, built programmatically as ast nodes WITHOUT grouping nodes (callee/object positions call-level-or-tighter, assignment/update targets identifier or member, as the property states); each tree placed as expression statement, let initialiser and call argument; printed compact / pretty / pretty without semicolons, re-parsed by xjs, shapes compared, and printed again (fixed point). quick: depth 3 over operator representatives (one per level and role); thorough: all operators. non-trivial = tree in which a correct printer must add parentheses Added families: multi-line literal leaves in 10 statement places incl. return; edited trees (print, replace the operator of the root or inner binary node in place for every operator triple, print again, compare with a freshly built tree); long programmatic chains (left-deep, right-deep, zig-zag over 7 operator cycles) of 9..129 (513 thorough) nodes.",
+		Rule:     "every chain of 0..3 nested (constructor, operand position) contexts — 4 prefix, 2 postfix, 13 binary x 2 sides, 3 assignment x 2 sides, callee, arguments, member object, index, array/object elements, function body, explicit group — around each of 9 leaf kinds, built programmatically as ast nodes WITHOUT grouping nodes (callee/object positions call-level-or-tighter, assignment/update targets identifier or member, as the property states); each tree placed as expression statement, let initialiser and call argument; printed compact / pretty / pretty without semicolons, re-parsed by xjs, shapes compared, and printed again (fixed point). quick: depth 3 over operator representatives (one per level and role); thorough: all operators. non-trivial = tree in which a correct printer must add parentheses Added families: multi-line literal leaves in 10 statement places incl. return; edited trees (print, replace the operator of the root or inner binary node in place for every operator triple, print again, compare with a freshly built tree); long programmatic chains (left-deep, right-deep, zig-zag over 7 operator cycles) of 9..129 (513 thorough) nodes; brace-less bodies: 11 body positions of if/else/while/for (nested too) x 5 simple statements x 12 expression endings (every class of final byte incl. the } of object literals and function expressions) x 4 followers x in/outside a function.",
 		Assume:   []string{"xjs's own parser (checked against ECMAScript by C02) is the reader"},
 		QuickSec: 300, ThorSec: 1800, Run: c03Run, Replay: c03Replay,
 		Evals: "print_parse_roundtrips", Nontriv: "trees_needing_parentheses",
